@@ -715,21 +715,24 @@ pub fn c10_spellings(rep: &mut Report) {
 pub fn c08(a: &Args) -> Report {
     let mut rep = Report::new(&a.prop, "vgraph c08 (attribute-level ties)", &a.tier_name);
     rep.bounds.insert("rule".into(), "pairs of definitions (same text, or disjoint texts) x 5 callbacks each x 6 priority assignments x 5 placements (two attributes on one variant, two variants, skip + variant, two skip items, skip + skip in one attribute) x with/without ignore(case): the derive must report an ambiguity iff the texts are equal and the effective priorities are equal - whatever the callbacks. Non-trivial = the two definitions overlap.".into());
-    let texts: [(&str, &str, &str); 4] = [("regex", "[0-9]+", "[a-z]+"), ("token", "if", "while"), ("regex", "a|b", "c|d"), ("token", "é", "ü")];
+    let texts: [(&str, &str, &str, u32); 4] = [("regex", "[0-9]+", "[a-z]+", 2), ("token", "if", "while", 4), ("regex", "a|b", "c|d", 2), ("token", "é", "ü", 4)];
     let cbs = ["", ", |_| 1", ", |_| 2", ", cb_one", ", callback = cb_two"];
     // (explicit priority of the first, of the second); None = default (equal for equal texts)
     let prios: [(Option<u32>, Option<u32>); 6] = [(None, None), (Some(7), Some(7)), (Some(7), Some(8)), (Some(7), None), (None, Some(7)), (Some(1), Some(1))];
     let mut cases: Vec<(String, bool, bool)> = vec![];
-    for (kind, t1, t_other) in texts {
+    for (kind, t1, t_other, default_prio) in texts {
+        // an explicit priority equal to the computed default of the other definition is a tie too
+        let mut prios = prios.to_vec();
+        prios.push((None, Some(default_prio)));
+        prios.push((Some(default_prio), None));
         for same in [true, false] {
             let t2 = if same { t1 } else { t_other };
             for c1 in cbs {
                 for c2 in cbs {
-                    for (p1, p2) in prios {
+                    for &(p1, p2) in &prios {
                         for icase in [false, true] {
                             let arg = |t: &str, c: &str, p: Option<u32>| format!("\"{t}\"{c}{}{}", p.map(|p| format!(", priority = {p}")).unwrap_or_default(), if icase { ", ignore(case)" } else { "" });
                             let (a1, a2) = (arg(t1, c1, p1), arg(t2, c2, p2));
-                            let conflict = same && p1 == p2;
                             let sk = |x: &str| if kind == "token" { x.replace('|', "\\|") } else { x.to_string() };
                             let _ = sk;
                             let srcs = [
@@ -746,9 +749,10 @@ pub fn c08(a: &Args) -> Report {
                                 }
                                 // a skip is a regex (priority by complexity), a token counts bytes: the
                                 // defaults coincide only for ASCII texts
-                                if k == 2 && kind == "token" && !t1.is_ascii() && p1.is_none() && p2.is_none() {
-                                    continue;
-                                }
+                                let chars = 2 * t1.chars().count() as u32;
+                                let d1 = if k >= 2 && kind == "token" { chars } else { default_prio };
+                                let d2 = if k >= 3 && kind == "token" { chars } else { default_prio };
+                                let conflict = same && p1.unwrap_or(d1) == p2.unwrap_or(d2);
                                 cases.push((src, conflict, same));
                             }
                         }
@@ -898,6 +902,8 @@ pub fn c19_cases(tier: Tier) -> Vec<C19Case> {
     for p in &pf {
         push("regex pattern".into(), format!("enum T {{ #[regex(\"{}\")] A }}", p.text), p.must_reject);
         push("regex pattern allow_greedy".into(), format!("enum T {{ #[regex(\"{}\", allow_greedy = true)] A }}", p.text), p.must_reject.filter(|w| *w != "greedy dot"));
+        push("regex pattern allow_greedy = false".into(), format!("enum T {{ #[regex(\"{}\", allow_greedy = false)] A }}", p.text), p.must_reject);
+        push("skip pattern allow_greedy = false".into(), format!("#[logos(skip(\"{}\", allow_greedy = false))] enum T {{ #[token(\"z\")] Z }}", p.text), p.must_reject);
         push("skip pattern".into(), format!("#[logos(skip \"{}\")] enum T {{ #[token(\"z\")] Z }}", p.text), p.must_reject);
         push("subpattern body".into(), format!("#[logos(subpattern s = \"{}\")] enum T {{ #[regex(\"x(?&s)\")] A }}", p.text), p.must_reject.filter(|w| *w != "nullable" && *w != "start look-behind"));
         // the same sources as BYTE-STRING literals of a byte lexer (Unicode mode off: \b is the ASCII
@@ -1193,7 +1199,7 @@ pub fn probe_emit(a: &Args) {
     use std::fmt::Write as _;
     let dir = a.out.clone();
     let all = c19_cases(a.tier);
-    let keep_desc = ["token args", "regex args", "skip args", "bare attr", "attr = lit", "enum-level bare attr", "regex pattern", "regex pattern allow_greedy", "skip pattern", "subpattern body", "regex byte-string pattern", "skip byte-string pattern", "byte-string subpattern body", "logos item", "variant x generics", "variant x generics (regex cb)", "variant no attr", "empty enum", "no patterns", "only skip", "def args x variant"];
+    let keep_desc = ["token args", "regex args", "skip args", "bare attr", "attr = lit", "enum-level bare attr", "regex pattern", "regex pattern allow_greedy", "regex pattern allow_greedy = false", "skip pattern allow_greedy = false", "skip pattern", "subpattern body", "regex byte-string pattern", "skip byte-string pattern", "byte-string subpattern body", "logos item", "variant x generics", "variant x generics (regex cb)", "variant no attr", "empty enum", "no patterns", "only skip", "def args x variant"];
     let mut cases: Vec<C19Case> = all.iter().filter(|c| keep_desc.contains(&c.desc.as_str())).cloned().collect();
     // same-key pairs (the ones whose handling involves a second span: "previous definition here", Span::join)
     let key = |t: &str| t.split(|c: char| !c.is_alphanumeric() && c != '_').next().unwrap_or("").to_string();
